@@ -401,8 +401,10 @@ class Tensor(Funsor, metaclass=TensorMeta):
             probs = np.exp(flat_logits - logit_max)
             probs = probs / np.sum(probs, -1, keepdims=True)
             s = np.cumsum(probs, -1)
+            s = s / s[..., -1:]  # the last positive cell and its successors are 1
             r = np.random.rand(*shape)
-            flat_sample = np.sum(s < np.expand_dims(r, -1), axis=-1)
+            # Use <= so that zero-probability cells are skipped even if r == 0.
+            flat_sample = np.sum(s <= np.expand_dims(r, -1), axis=-1)
 
         assert flat_sample.shape == sample_shape + batch_shape
         results = []
